@@ -46,7 +46,7 @@ def work(item):
     D = [netcheck.apply_numeric(c, vals) for c in ref_metanet.admissible_domain(topo)]
     D = [c for c in D if not z3.is_true(z3.simplify(c))]
     try:
-        A = compiled.compile_terms(topo, symtype, numA, compact, False, None, declare, check_names=True, dual_route=reverse)
+        A = compiled.compile_terms(topo, symtype, numA, compact, False, None, declare, check_names=True, dual_route=reverse, same_display_names=reverse)
         B = compiled.compile_terms(topo, symtype, dict(vals), compact, False, None, [], check_names=True)
     except compiled.LayoutMismatch as e:
         acc.exec_violation(PID, topo, f"casadi[{tag}]", "array", f"layout: {e}", extra={"numeric": numA, "compact": compact})
@@ -100,7 +100,7 @@ def replay(rec):
     declare = names_of(topo, rec["kinds"])
     if rec["reverse"]:
         declare = list(reversed(declare))
-    A = compiled.compile_terms(topo, rec["symtype"], {k: v for k, v in vals.items() if k not in declare}, rec["compact"], False, None, declare, dual_route=rec["reverse"])
+    A = compiled.compile_terms(topo, rec["symtype"], {k: v for k, v in vals.items() if k not in declare}, rec["compact"], False, None, declare, dual_route=rec["reverse"], same_display_names=rec["reverse"])
     B = compiled.compile_terms(topo, rec["symtype"], dict(vals), rec["compact"], False, None, [])
     slot = tuple(rec["slot"])
     a, b = A.numeric_call(rec["env"])[slot], B.numeric_call(rec["env"])[slot]
@@ -142,7 +142,7 @@ def main():
     cov = netcheck.base_coverage(
         tot, levels, samples, st, len(items),
         "program = (topology, SX|MX, compactness level, subset of parameter kinds made symbolic, declared order natural|reversed -- in the reversed programs the model "
-        "parameters are additionally forwarded as **other_parameters, the second documented route); one query per result entry: "
+        "parameters are additionally forwarded as **other_parameters, the second documented route, and all symbols of one kind share one display name); one query per result entry: "
         "IR with symbolic parameters, numbers substituted == IR compiled with plain numbers",
         {"bounds": {"family": "K without mainstream origins (15)" + (" + E(3,4); all 512 subsets on the test network" if args.thorough else "; 13 subsets on 3 topologies, 4 rotating subsets on the others"),
                     "parameter_values": "dyadic / power-of-two divisors so that float constant folding is exact"},
